@@ -362,6 +362,19 @@ impl Main {
         if t.header.has_mipmaps() != c.mip {
             r.viol("converted header has_mipmaps flag differs from request", format!("{ctx}: {:?}", t.header.flags));
         }
+        // the header's own chain arithmetic (types/header.rs mipmaps_count / mipmap_size)
+        if t.header.mipmaps_count() + 1 != full {
+            r.viol(
+                "header.mipmaps_count() differs from floor(log2(max side)) (or is non-zero with mipmaps off)",
+                format!("{ctx}: mipmaps_count()={} expected {}", t.header.mipmaps_count(), full - 1),
+            );
+        }
+        for i in 0..refblp::full_chain_levels(w, h) {
+            if t.header.mipmap_size(i) != refblp::level_dims(w, h, i) {
+                r.viol("header.mipmap_size(i) differs from max(1,w>>i) x max(1,h>>i)", format!("{ctx}: level {i}: {:?} expected {:?}", t.header.mipmap_size(i), refblp::level_dims(w, h, i)));
+                break;
+            }
+        }
         for i in 0..levels {
             let (lw, lh) = refblp::level_dims(w, h, i);
             if let Some(want) = refblp::level_bytes(kind, lw, lh) {
